@@ -49,43 +49,54 @@ Lemma cons_req_out r x : out_of (cons_req r x) = out_of x. Proof. destruct x as 
 
 (* D6/D7 (one execution): whatever the faults, the job is created at most once; once it exists the server is left
    alone; and if the execution returns, the job exists — it was created exactly once unless it existed before *)
-Lemma client_spec : forall fuel s cur fs,
-  let x := client fuel s cur fs in
-  (sjob s = true -> srv_of x = s) /\
-  (srv_of x = s \/ (sjob s = false /\ sjob (srv_of x) = true /\ screates (srv_of x) = S (screates s))) /\
-  (out_of x = Returned -> sjob (srv_of x) = true).
+Definition grows (s s1 : server) : Prop :=
+  (sjob s = true -> s1 = s) /\
+  (s1 = s \/ (sjob s = false /\ sjob s1 = true /\ screates s1 = S (screates s))).
+
+Lemma grows_refl s : grows s s. Proof. split; auto. Qed.
+
+Lemma grows_serve s r : grows s (fst (serve s r)).
 Proof.
-  induction fuel as [|f IH]; intros s cur fs; simpl.
-  - repeat split; auto. discriminate.
-  - assert (Hrec : forall s1 r1 fs1,
-      (sjob s = true -> s1 = s) ->
-      (s1 = s \/ (sjob s = false /\ sjob s1 = true /\ screates s1 = S (screates s))) ->
-      let y := cons_req cur (client f s1 r1 fs1) in
-      (sjob s = true -> srv_of y = s) /\
-      (srv_of y = s \/ (sjob s = false /\ sjob (srv_of y) = true /\ screates (srv_of y) = S (screates s))) /\
-      (out_of y = Returned -> sjob (srv_of y) = true)).
-    { intros s1 r1 fs1 H1 H2 y. unfold y. rewrite cons_req_srv, cons_req_out.
-      destruct (IH s1 r1 fs1) as (A & B & C). repeat split; auto.
-      - intros Hj. rewrite A; auto. rewrite H1; auto.
-      - destruct H2 as [->|(E1 & E2 & E3)]; auto.
-        right. rewrite A; auto. }
-    destruct (match fs with [] => NoFault | a :: _ => a end) as [|x|x|c].
-    + destruct (serve s cur) as [s' p] eqn:Es. destruct (serve_spec _ _ _ _ Es) as (A & B & C).
-      assert (B' : s' = s \/ sjob s = false /\ sjob s' = true /\ screates s' = S (screates s)) by tauto.
+  destruct (serve s r) as [s' p] eqn:Es. destruct (serve_spec _ _ _ _ Es) as (A & B & C). simpl. split; auto. tauto.
+Qed.
+
+Lemma grows_trans s s1 s2 : grows s s1 -> grows s1 s2 -> grows s s2.
+Proof.
+  intros [A B] [A' B']. split.
+  - intros Hj. rewrite A' by (rewrite A; auto). auto.
+  - destruct B as [->|(E1 & E2 & E3)]; auto. right. rewrite A'; auto.
+Qed.
+
+Lemma client_spec : forall fuel s zs cur fs,
+  let x := client fuel s zs cur fs in
+  grows s (srv_of x) /\ (out_of x = Returned -> sjob (srv_of x) = true).
+Proof.
+  induction fuel as [|f IH]; intros s zs cur fs; simpl.
+  - split; [apply grows_refl|discriminate].
+  - assert (Hrec : forall s1 zs1 r1 fs1, grows s s1 ->
+      let y := client f s1 zs1 r1 fs1 in grows s (srv_of y) /\ (out_of y = Returned -> sjob (srv_of y) = true)).
+    { intros s1 zs1 r1 fs1 Hg y. destruct (IH s1 zs1 r1 fs1) as [A C]. split; auto. eapply grows_trans; eauto. }
+    assert (Hrec' : forall s1 zs1 r1 fs1, grows s s1 ->
+      let y := cons_req cur (client f s1 zs1 r1 fs1) in
+      grows s (srv_of y) /\ (out_of y = Returned -> sjob (srv_of y) = true)).
+    { intros s1 zs1 r1 fs1 Hg y. unfold y. rewrite cons_req_srv, cons_req_out. apply Hrec; auto. }
+    destruct (match fs with [] => NoFault | a :: _ => a end) as [|x|x|c|k].
+    + pose proof (grows_serve s cur) as Hg.
+      destruct (serve s cur) as [s' p] eqn:Es. destruct (serve_spec _ _ _ _ Es) as (A & B & C). simpl in Hg.
       destruct p as [|c].
-      * simpl. repeat split; auto.
-      * destruct (retry c cur); [apply Hrec; auto|]. simpl. repeat split; auto. discriminate.
-    + destruct (retryable x); [apply Hrec; auto|]. simpl. repeat split; auto. discriminate.
-    + destruct (serve s cur) as [s' p] eqn:Es. destruct (serve_spec _ _ _ _ Es) as (A & B & C). simpl.
-      assert (B' : s' = s \/ sjob s = false /\ sjob s' = true /\ screates s' = S (screates s)) by tauto.
-      destruct (retryable x); [apply Hrec; auto|]. simpl. repeat split; auto. discriminate.
-    + destruct (retry c cur); [apply Hrec; auto|]. simpl. repeat split; auto. discriminate.
+      * simpl. split; auto.
+      * destruct (retry c cur); [apply Hrec'; auto|]. simpl. split; auto. discriminate.
+    + destruct (retryable x); [apply Hrec'; apply grows_refl|]. simpl. split; [apply grows_refl|discriminate].
+    + pose proof (grows_serve s cur) as Hg.
+      destruct (retryable x); [apply Hrec'; auto|]. simpl. split; auto. discriminate.
+    + destruct (retry c cur); [apply Hrec'; apply grows_refl|]. simpl. split; [apply grows_refl|discriminate].
+    + destruct (take_nth k zs) as [[z zs']|]; apply Hrec; [apply grows_serve|apply grows_refl].
 Qed.
 
 Theorem job_created_at_most_once : forall fuel s fs,
   screates (srv_of (run_client fuel s fs)) <= screates s + (if sjob s then 0 else 1).
 Proof.
-  intros fuel s fs. destruct (client_spec fuel s CreateProgJob fs) as (A & B & C). unfold run_client.
+  intros fuel s fs. destruct (client_spec fuel s [] CreateProgJob fs) as [[A B] C]. unfold run_client.
   destruct (sjob s) eqn:Ej.
   - rewrite A; auto. lia.
   - destruct B as [->|(_ & _ & ->)]; lia.
@@ -96,21 +107,21 @@ Theorem result_is_jobs : forall fuel s fs,
   sjob (srv_of (run_client fuel s fs)) = true /\
   (sjob s = false -> screates (srv_of (run_client fuel s fs)) = S (screates s)).
 Proof.
-  intros fuel s fs H. destruct (client_spec fuel s CreateProgJob fs) as (A & B & C). unfold run_client in *.
+  intros fuel s fs H. destruct (client_spec fuel s [] CreateProgJob fs) as [[A B] C]. unfold run_client in *.
   split; auto. intros Hj. destruct B as [E|(_ & _ & E)]; auto.
   specialize (C H). rewrite E in C. congruence.
 Qed.
 
 (* non-retryable errors surface *)
-Theorem nonretryable_surfaces : forall f s cur fs,
+Theorem nonretryable_surfaces : forall f s zs cur fs,
   (forall x, retryable x = false ->
-     out_of (client (S f) s cur (BreakBefore x :: fs)) = RaisedExn x /\
-     out_of (client (S f) s cur (BreakAfter x :: fs)) = RaisedExn x) /\
-  (forall c, retry c cur = None -> out_of (client (S f) s cur (Reject c :: fs)) = RaisedStream c) /\
+     out_of (client (S f) s zs cur (BreakBefore x :: fs)) = RaisedExn x /\
+     out_of (client (S f) s zs cur (BreakAfter x :: fs)) = RaisedExn x) /\
+  (forall c, retry c cur = None -> out_of (client (S f) s zs cur (Reject c :: fs)) = RaisedStream c) /\
   (forall s' c, serve s cur = (s', PErr c) -> retry c cur = None ->
-     out_of (client (S f) s cur (NoFault :: fs)) = RaisedStream c).
+     out_of (client (S f) s zs cur (NoFault :: fs)) = RaisedStream c).
 Proof.
-  intros f s cur fs. repeat split.
+  intros f s zs cur fs. repeat split.
   - simpl. rewrite H. reflexivity.
   - simpl. rewrite H. reflexivity.
   - intros c H. simpl. rewrite H. reflexivity.
@@ -118,59 +129,63 @@ Proof.
 Qed.
 
 (* termination: with no faults left the honest server is reached in at most three requests *)
-Lemma tail_terminates : forall p j n cur, out_of (client 3 (mkserver p j n) cur []) <> OutOfFuel.
-Proof. intros p j n cur. destruct p, j, cur; simpl; discriminate. Qed.
+Lemma tail_terminates : forall p j n zs cur, out_of (client 3 (mkserver p j n) zs cur []) <> OutOfFuel.
+Proof. intros p j n zs cur. destruct p, j, cur; simpl; discriminate. Qed.
 
-Lemma client_fuel_mono : forall f s cur fs, out_of (client f s cur fs) <> OutOfFuel ->
-  forall f', f <= f' -> client f' s cur fs = client f s cur fs.
+Lemma client_fuel_mono : forall f s zs cur fs, out_of (client f s zs cur fs) <> OutOfFuel ->
+  forall f', f <= f' -> client f' s zs cur fs = client f s zs cur fs.
 Proof.
-  induction f as [|f IH]; intros s cur fs H f' Hle; [unfold out_of in H; simpl in H; congruence|].
+  induction f as [|f IH]; intros s zs cur fs H f' Hle; [unfold out_of in H; simpl in H; congruence|].
   destruct f' as [|f']; [lia|]. assert (Hle' : f <= f') by lia.
   simpl in *.
-  destruct (match fs with [] => NoFault | a :: _ => a end) as [|x|x|c].
+  destruct (match fs with [] => NoFault | a :: _ => a end) as [|x|x|c|k].
   - destruct (serve s cur) as [s' [|c]]; auto.
-    destruct (retry c cur); auto. rewrite cons_req_out in H. rewrite (IH _ _ _ H f' Hle'). reflexivity.
-  - destruct (retryable x); auto. rewrite cons_req_out in H. rewrite (IH _ _ _ H f' Hle'). reflexivity.
-  - destruct (retryable x); auto. rewrite cons_req_out in H. rewrite (IH _ _ _ H f' Hle'). reflexivity.
-  - destruct (retry c cur); auto. rewrite cons_req_out in H. rewrite (IH _ _ _ H f' Hle'). reflexivity.
+    destruct (retry c cur); auto. rewrite cons_req_out in H. rewrite (IH _ _ _ _ H f' Hle'). reflexivity.
+  - destruct (retryable x); auto. rewrite cons_req_out in H. rewrite (IH _ _ _ _ H f' Hle'). reflexivity.
+  - destruct (retryable x); auto. rewrite cons_req_out in H. rewrite (IH _ _ _ _ H f' Hle'). reflexivity.
+  - destruct (retry c cur); auto. rewrite cons_req_out in H. rewrite (IH _ _ _ _ H f' Hle'). reflexivity.
+  - destruct (take_nth k zs) as [[z zs']|]; apply IH; auto.
 Qed.
 
-Theorem terminates_after_faults : forall fs s cur fuel,
-  length fs + 3 <= fuel -> out_of (client fuel s cur fs) <> OutOfFuel.
+Theorem terminates_after_faults : forall fs s zs cur fuel,
+  length fs + 3 <= fuel -> out_of (client fuel s zs cur fs) <> OutOfFuel.
 Proof.
-  induction fs as [|a fs IH]; intros s cur fuel Hf.
+  induction fs as [|a fs IH]; intros s zs cur fuel Hf.
   - destruct s as [p j n]. rewrite (client_fuel_mono 3); auto using tail_terminates.
   - destruct fuel as [|f]; [simpl in Hf; lia|]. simpl in Hf. assert (Hf' : length fs + 3 <= f) by lia.
-    simpl. destruct a as [|x|x|c].
+    simpl. destruct a as [|x|x|c|k].
     + destruct (serve s cur) as [s' [|c]]; simpl; try discriminate.
       destruct (retry c cur); [rewrite cons_req_out; apply IH; auto|simpl; discriminate].
     + destruct (retryable x); [rewrite cons_req_out; apply IH; auto|simpl; discriminate].
     + destruct (retryable x); [rewrite cons_req_out; apply IH; auto|simpl; discriminate].
     + destruct (retry c cur); [rewrite cons_req_out; apply IH; auto|simpl; discriminate].
+    + destruct (take_nth k zs) as [[z zs']|]; apply IH; auto.
 Qed.
 
-(* D7: along any finite sequence of retryable stream failures (before or after the server processed the request) mixed
-   with undisturbed exchanges, the execution RETURNS: it never raises, the job exists and was created at most once *)
+(* D7: along any finite sequence of retryable stream failures — before or after the server handled the request, the
+   overtaken requests being handled later at arbitrary points or never — mixed with undisturbed exchanges, the
+   execution RETURNS: it never raises, the job exists and was created at most once *)
 Definition benign (a : fault) : Prop :=
   match a with
-  | NoFault => True
+  | NoFault | Late _ => True
   | BreakBefore x | BreakAfter x => retryable x = true
   | Reject _ => False
   end.
 
-Lemma benign_never_raises : forall fuel s cur fs, Forall benign fs ->
-  out_of (client fuel s cur fs) = Returned \/ out_of (client fuel s cur fs) = OutOfFuel.
+Lemma benign_never_raises : forall fuel s zs cur fs, Forall benign fs ->
+  out_of (client fuel s zs cur fs) = Returned \/ out_of (client fuel s zs cur fs) = OutOfFuel.
 Proof.
-  induction fuel as [|f IH]; intros s cur fs Hb; simpl; auto.
+  induction fuel as [|f IH]; intros s zs cur fs Hb; simpl; auto.
   assert (Htl : Forall benign (tl fs)) by (destruct fs; simpl; auto; inversion Hb; auto).
   assert (Hhd : benign (match fs with [] => NoFault | a :: _ => a end)) by (destruct fs; simpl; auto; inversion Hb; auto).
-  destruct (match fs with [] => NoFault | a :: _ => a end) as [|x|x|c]; simpl in Hhd.
+  destruct (match fs with [] => NoFault | a :: _ => a end) as [|x|x|c|k]; simpl in Hhd.
   - destruct (serve s cur) as [s' [|c]] eqn:Es; simpl; auto.
     pose proof (honest_reply_is_retryable _ _ _ _ Es) as Hr.
     destruct (retry c cur); [|congruence]. rewrite cons_req_out. auto.
   - rewrite Hhd, cons_req_out. auto.
   - rewrite Hhd, cons_req_out. auto.
   - contradiction.
+  - destruct (take_nth k zs) as [[z zs']|]; auto.
 Qed.
 
 Theorem returns_after_retryable_faults : forall fs s, Forall benign fs ->
@@ -180,8 +195,8 @@ Theorem returns_after_retryable_faults : forall fs s, Forall benign fs ->
     screates (srv_of (run_client fuel s fs)) <= screates s + (if sjob s then 0 else 1).
 Proof.
   intros fs s Hb. exists (length fs + 3).
-  pose proof (terminates_after_faults fs s CreateProgJob (length fs + 3) (le_n _)) as Ht.
-  destruct (benign_never_raises (length fs + 3) s CreateProgJob fs Hb) as [H|H]; [|unfold run_client in *; congruence].
+  pose proof (terminates_after_faults fs s [] CreateProgJob (length fs + 3) (le_n _)) as Ht.
+  destruct (benign_never_raises (length fs + 3) s [] CreateProgJob fs Hb) as [H|H]; [|unfold run_client in *; congruence].
   split; auto. split.
   - apply result_is_jobs; auto.
   - apply job_created_at_most_once.
@@ -212,9 +227,9 @@ Section Preservation.
   Hypothesis P_drop : forall m, P m -> P (drop_stream m).
   Hypothesis P_submit : forall p m, P m -> P (set_execs (execs m ++ [mkexec p CreateProgJob None Running]) m).
   Hypothesis P_process : forall k w rest, forall m, P m -> take_nth k (wire m) = Some (w, rest) ->
-    P (let (m1, p) := serve_m w (set_wire rest m) in reply (wid w) p m1).
+    P (let (m1, p) := serve_m w (set_wire rest m) in if wlive w then reply (wid w) p m1 else m1).
   Hypothesis P_reject : forall k w rest c, forall m, P m -> take_nth k (wire m) = Some (w, rest) ->
-    P (reply (wid w) (MErr c) (set_wire rest m)).
+    P (if wlive w then reply (wid w) (MErr c) (set_wire rest m) else set_wire rest m).
   Hypothesis P_take : forall k id p rest m, P m -> take_nth k (pending m) = Some ((id, p), rest) ->
     P (set_pending rest m).
   Hypothesis P_unsub : forall id m, P m -> P (set_subs (remove_sub id (subs m)) m).
@@ -375,10 +390,14 @@ Proof.
   - intros e m H _. unfold cancel_exec.
     assert (H' : Routing (finish e OCancelled m)) by (apply routing_finish; [auto|discriminate]).
     revert H'. apply routing_frame; auto.
-  - intros m. apply routing_frame; simpl; auto; contradiction.
+  - intros m [H1 H2 H3 H4 H5]. constructor; unfold sent in *; simpl; auto; try contradiction.
+    intros w Hin. apply in_map_iff in Hin. destruct Hin as [w0 [<- Hin]]. simpl. apply H3; auto.
   - intros p m. apply routing_frame; auto.
   - intros k w rest m H E. destruct (take_nth_in _ _ _ _ E) as [Hw Hr].
     destruct (g_wire _ H w Hw) as [Hs Hj].
+    assert (Hdead : forall m1, lreqs m1 = lreqs m -> next_id m1 = next_id m -> subs m1 = subs m -> wire m1 = rest ->
+              pending m1 = pending m -> ldones m1 = ldones m -> Routing m1).
+    { intros m1 E1 E2 E3 E4 E5 E6. revert H. apply routing_frame; auto; rewrite ?E3, ?E4, ?E5; auto. }
     assert (Hgen : forall m1 p, lreqs m1 = lreqs m -> next_id m1 = next_id m -> subs m1 = subs m -> wire m1 = rest ->
               pending m1 = pending m -> ldones m1 = ldones m -> clock m1 = clock m ->
               (forall r, p = MRes r -> job_of r = wjob w) -> Routing (reply (wid w) p m1)).
@@ -387,9 +406,12 @@ Proof.
       intros id r Hin. apply in_app_iff in Hin. destruct Hin as [Hin|[Hin|[]]]; auto.
       inversion Hin; subst. rewrite (Hp r eq_refl), Hj. exact Hs. }
     unfold serve_m, create_job.
+    destruct (wlive w);
     destruct (wkind w); repeat match goal with |- context [if ?b then _ else _] => destruct b end;
+      try (apply Hdead; simpl; auto; fail);
       apply Hgen; simpl; auto; intros r Hr'; inversion Hr'; try discriminate; apply job_of_res.
   - intros k w rest c m H E. destruct (take_nth_in _ _ _ _ E) as [Hw Hr].
+    destruct (wlive w); [|revert H; apply routing_frame; auto].
     destruct H as [H1 H2 H3 H4 H5]. constructor; unfold sent in *; simpl; auto.
     intros id r Hin. apply in_app_iff in Hin. destruct Hin as [Hin|[Hin|[]]]; auto. discriminate.
   - intros k id p rest m H E. destruct (take_nth_in _ _ _ _ E) as [_ Hr]. revert H. apply routing_frame; auto.
@@ -478,14 +500,31 @@ Proof.
       - intros id r Hin. apply in_app_iff in Hin. destruct Hin as [Hin|[Hin|[]]]; [right; eauto|].
         inversion Hin; subst. left. symmetry. apply job_of_res.
       - intros c e r Hin. right. eauto. }
-    unfold serve_m. destruct (wkind w).
-    + destruct (mem (wprog w) (progs (set_wire rest m))); [apply Hkeep; discriminate|].
-      destruct (mem (wjob w) (jobs (set_wire rest m))) eqn:Ej; [apply Hkeep; discriminate|]. apply Hnew. exact Ej.
-    + destruct (negb (mem (wprog w) (progs (set_wire rest m)))); [apply Hkeep; discriminate|].
-      destruct (mem (wjob w) (jobs (set_wire rest m))) eqn:Ej; [apply Hkeep; discriminate|]. apply Hnew. exact Ej.
-    + destruct (mem (wjob w) (jobs (set_wire rest m))) eqn:Ej; [|apply Hkeep; discriminate].
-      apply Hkeep. intros r Hr. inversion Hr. rewrite job_of_res. apply mem_in. exact Ej.
-  - intros k w rest c m H E. destruct H as [H1 H2 H3 H4 H5]. constructor; msimpl; auto.
+    assert (Hkeep' : Creation pj (set_wire rest m)) by (revert H; apply creation_frame; auto).
+    assert (Hnew' : mem (wjob w) (jobs m) = false -> Creation pj (fst (create_job w (set_wire rest m)))).
+    { intros Hm. assert (Hn : ~ In (wjob w) (jobs m)) by (rewrite <- mem_in; congruence).
+      destruct H as [H1 H2 H3 H4 H5]. unfold create_job. constructor; msimpl.
+      - rewrite H1. reflexivity.
+      - constructor; auto. intros Hc. apply Hn. rewrite H1. apply in_app_iff; auto.
+      - intros j [<-|Hj]; auto. intros Hc. apply Hn. rewrite H1. apply in_app_iff; auto.
+      - intros id r Hin. right; eauto.
+      - intros c e r Hin. right. eauto. }
+    unfold serve_m. destruct (wlive w).
+    { destruct (wkind w).
+      + destruct (mem (wprog w) (progs (set_wire rest m))); [apply Hkeep; discriminate|].
+        destruct (mem (wjob w) (jobs (set_wire rest m))) eqn:Ej; [apply Hkeep; discriminate|]. apply Hnew. exact Ej.
+      + destruct (negb (mem (wprog w) (progs (set_wire rest m)))); [apply Hkeep; discriminate|].
+        destruct (mem (wjob w) (jobs (set_wire rest m))) eqn:Ej; [apply Hkeep; discriminate|]. apply Hnew. exact Ej.
+      + destruct (mem (wjob w) (jobs (set_wire rest m))) eqn:Ej; [|apply Hkeep; discriminate].
+        apply Hkeep. intros r Hr. inversion Hr. rewrite job_of_res. apply mem_in. exact Ej. }
+    { destruct (wkind w).
+      + destruct (mem (wprog w) (progs (set_wire rest m))); [exact Hkeep'|].
+        destruct (mem (wjob w) (jobs (set_wire rest m))) eqn:Ej; [exact Hkeep'|]. apply Hnew'. exact Ej.
+      + destruct (negb (mem (wprog w) (progs (set_wire rest m)))); [exact Hkeep'|].
+        destruct (mem (wjob w) (jobs (set_wire rest m))) eqn:Ej; [exact Hkeep'|]. apply Hnew'. exact Ej.
+      + destruct (mem (wjob w) (jobs (set_wire rest m))) eqn:Ej; exact Hkeep'. }
+  - intros k w rest c m H E. destruct (wlive w); [|revert H; apply creation_frame; auto].
+    destruct H as [H1 H2 H3 H4 H5]. constructor; msimpl; auto.
     intros id r Hin. apply in_app_iff in Hin. destruct Hin as [Hin|[Hin|[]]]; eauto. discriminate.
   - intros k id p rest m H E. destruct (take_nth_in _ _ _ _ E) as [_ Hr]. revert H. apply creation_frame; auto.
   - intros id m. apply creation_frame; auto.
@@ -569,9 +608,10 @@ Proof.
     intros x Hx. destruct (H1 x Hx) as [y [Hy Hn]]. exists y. split; auto. simpl.
     rewrite nth_error_app1; auto. apply nth_error_Some. congruence.
   - intros k w rest m H E. unfold serve_m, create_job.
+    destruct (wlive w);
     destruct (wkind w); repeat match goal with |- context [if ?b then _ else _] => destruct b end;
       revert H; apply completion_frame; auto.
-  - intros k w rest c m H E. revert H. apply completion_frame; auto.
+  - intros k w rest c m H E. destruct (wlive w); revert H; apply completion_frame; auto.
   - intros k id p rest m H E. revert H. apply completion_frame; auto.
   - intros id m. apply completion_frame; auto.
   - intros k id r rest e m H E El Hr.
